@@ -9,6 +9,6 @@ git -C /repo worktree add -f "$wt" HEAD >/dev/null 2>&1 || exit 2
 ( cd "$wt" && (git apply "$d/patch.diff" 2>/dev/null || git apply -3 "$d/patch.diff" 2>/dev/null || patch -p1 -s < "$d/patch.diff") ) || { echo "patch does not apply"; git -C /repo worktree remove --force "$wt"; exit 2; }
 ( cd "$wt" && PYTHONPATH="$wt" /venv/bin/python "$d/demo.py" >/dev/null 2>&1 ); echo "demo exit=$? (non-zero expected)"
 for id in "$@"; do
-  ( cd /verif && PYTHONPATH="$wt" VERIF_EVIDENCE_DIR=/tmp/mut-evidence-$$ VERIF_REPLAY_DIR=/tmp/mut-replays-$$ ./check "$id" --tier quick > "/tmp/seedcheck-$$-$id.log" 2>&1 ); echo "$id exit=$? $(grep -c '^VIOLATION' /tmp/seedcheck-$$-$id.log) violation lines: $(grep -A1 '^VIOLATION' /tmp/seedcheck-$$-$id.log | grep -v '^VIOLATION' | head -2 | cut -c1-220 | tr '\n' '|')"; cp "/tmp/seedcheck-$$-$id.log" "/tmp/seedcheck-$id.log"; rm -rf /tmp/mut-evidence-$$ /tmp/mut-replays-$$ "/tmp/seedcheck-$$-$id.log"
+  ( cd /verif && PYTHONPATH="$wt" VERIF_EVIDENCE_DIR=/tmp/mut-evidence-$$ VERIF_REPLAY_DIR=/tmp/mut-replays-$$ ./check "$id" --tier quick > "/tmp/seedcheck-$$-$id.log" 2>&1 ); echo "$id exit=$? $(grep -c '^VIOLATION' /tmp/seedcheck-$$-$id.log) violation lines: $(grep -A1 '^VIOLATION' /tmp/seedcheck-$$-$id.log | grep -v '^VIOLATION' | head -2 | cut -c1-220 | tr '\n' '|')"; tag=$(echo "$d" | sed "s|/*$||" | awk -F/ '{print $(NF-1)"-"$NF}'); cp "/tmp/seedcheck-$$-$id.log" "/tmp/seedcheck-$tag-$id.log"; rm -rf /tmp/mut-evidence-$$ /tmp/mut-replays-$$ "/tmp/seedcheck-$$-$id.log"
 done
 git -C /repo worktree remove --force "$wt"; rm -rf "$wt"
